@@ -50,6 +50,13 @@ def vol_block_length_chain(F, S):
     cap = (1 << bits) - 1
     fcap = (1 << (fs[0]["width_bits"] - (1 if fs[0].get("is") else 0))) - 1
     cap = min(cap, fcap)
+    # the entry may be built in PrepareHeader or in a helper whose result it appends
+    from ..through import entry_producer
+    ep = entry_producer(F, ph)
+    if ep is None:
+        raise AnalysisBroken("PrepareHeader: the appended IndexEntry is not a local built here or in a helper")
+    ph_outer = ph
+    ph = ep["host"]
     eng = Engine(F, S)
     eng.analyze(ph, frozenset())
     # (1) the store into fileSize is dominated by a refusal of sizes above the field capacity
@@ -79,8 +86,8 @@ def vol_block_length_chain(F, S):
                 o = fn.term(nd["args"][0])
                 if o[0] == "mem" and o[2] == "indexEntries" and o[1] != ("this",):
                     pushes.append((fn, nd))
-    good = len(pushes) == 1 and pushes[0][0].key == ph.key and pushes[0][1].get("fname") == "push_back" and \
-        ph.term(pushes[0][1]["args"][0]) == entry_var and pushes[0][1]["id"] > st["id"]
+    good = len(pushes) == 1 and pushes[0][0].key == ph_outer.key and pushes[0][1].get("fname") == "push_back" and \
+        pushes[0][1]["id"] == ep["push"]["id"] and entry_var == ep["ent"] and (ph.key != ph_outer.key or pushes[0][1]["id"] > st["id"])
     req = "CreateVolumeInfo::indexEntries is filled only by PrepareHeader's push_back of the entry whose size was checked"
     if good:
         out.append(ok("R-WRITESET", VOL + "::CreateVolumeInfo::indexEntries#single-producer", ph.loc(pushes[0][1]["id"]), ph.qn, req, "one producer site"))
@@ -292,12 +299,24 @@ def frame_layers(F, S):
     g = eng.cfg(fn)
     out = []
     ok_all = True
-    fr = ("var", fn.params[1]["n"], fn.params[1]["d"])
-    want = norm_cmp("==", ("mem", ("mem", fr, "layerMetadata"), "count"), ("size", ("mem", fr, "layers")))
+    # the frame being written: a parameter, or (when the function has been inlined into the animation writer) the
+    # loop variable ranging over the frames - any variable of type Animation::Frame; its writes are those that mention it
+    from ..rules_valid import var_types
+    from ..flow import mentions
+    frames = [v for v, d in var_types(fn).items() if (d.get("rec") or d.get("record") or d.get("ct") or "").replace("const ", "").rstrip(" &").endswith("Animation::Frame")]
+    if not frames:
+        raise AnalysisBroken("frame writer: no variable of type Animation::Frame in %s" % fn.qn)
+    checked = 0
     for w in wr:
-        site = final_site_facts(eng, fn, w["id"]) or set()
-        if want not in site:
-            ok_all = False
+        for fr in frames:
+            if any(mentions(fn.term(a), fr) for a in w.get("args", [])):
+                checked += 1
+                want = norm_cmp("==", ("mem", ("mem", fr, "layerMetadata"), "count"), ("size", ("mem", fr, "layers")))
+                site = final_site_facts(eng, fn, w["id"]) or set()
+                if want not in site:
+                    ok_all = False
+    if checked == 0:
+        raise AnalysisBroken("frame writer: no write of frame data found in %s" % fn.qn)
     inst = "OP2Utility::ArtFile::WriteFrame#layer-count"
     req = "a frame whose 7-bit layer count differs from layers.size() is refused before anything is written"
     if ok_all:
